@@ -36,6 +36,7 @@ type World struct {
 	assignMu        sync.Mutex
 	Repo     string
 	LoadErrs []string
+	Groups   map[string]bool // enabled contract groups ("func NAME group G" blocks)
 }
 
 // Load loads the given package patterns from repo with build tag verif.
